@@ -514,8 +514,8 @@ class Ghost:
                     truncating = "n" not in flags
                 except Err:
                     pass
-            if k is None and creat and self.leaves_bytes(dur, st[3]) and not truncating:
-                out.append("Recreate")          # (a) (b): a truncating creation hides what the old file left
+            if k is None and creat and self.leaves_bytes(dur, st[3]) and not (truncating and not dur.bs):
+                out.append("Recreate")          # (a) (b): a truncating creation hides what the old file left (not from torn writes)
             if k is None and creat and self.under_rename(st[3]) and "t" in flags and "w" in flags:
                 try:
                     Posix.open_mode(flags)
@@ -536,10 +536,12 @@ class Ghost:
             k = fs.kind(st[2])
             if k is None and st[2] in self.gone:
                 out.append("RecreateAny")
-            if k is None and self.under_rename(st[2]):
+            if k is None and (self.under_rename(st[2]) or (dur.bs and self.leaves_bytes(dur, st[2]))):
                 out.append("Recreate")
             if k is None and st[2] in self.unflushed and st[3] and coin:
                 out.append("Recreate")
+            if k is None and st[2] in self.unflushed and st[3] and dur.bs and dur.dent.get(st[2]) is not None:
+                out.append("Recreate")          # (e) see below
             if k is None and st[2] in self.gdirs:
                 out.append("KindSwap")
             if k is None and st[2] in self.stale:
@@ -562,6 +564,15 @@ class Ghost:
             synced_ino = fs.lookup(st[2])[1]
         if synced_ino is not None and synced_ino in self.recreated.values():
             out.append("Recreate")              # data sync of a re-created file whose predecessor's removal is not flushed
+        written = None
+        if name in ("write_at", "write") and fs.h(st[2]) is not None and fs.h(st[2])["w"] \
+                and (st[4] if name == "write_at" else st[3]):
+            written = fs.h(st[2])["ino"]
+        if name == "spit" and st[3] and fs.kind(st[2]) == "file":
+            written = fs.lookup(st[2])[1]
+        if written is not None and dur.bs and any(j == written and dur.dent.get(x) is not None
+                                                  for x, j in self.recreated.items()):
+            out.append("Recreate")              # (e) with torn writes the write would land on the old durable file
         if name in ("sync_all", "sync_data") and fs.h(st[2]) is not None:
             for ino, f, t in self.pren:
                 if ino == fs.h(st[2])["ino"] and (dur.dent.get(t) == "dir" or t in self.stale):
@@ -578,6 +589,8 @@ class Ghost:
                         out.append("RenameCrossDir")    # (h) no inode on disk yet: the flushed rename moves nothing
                     elif dur.dent.get(f) == ino and not (fs.kind(t) == "file" and fs.lookup(t)[1] == ino):
                         out.append("RenameCrossDir")    # (j) unlinked at the new name meanwhile: the old durable entry is lost too
+                    elif dur.dent.get(f) == ino and fs.kind(f) == "file":
+                        out.append("RenameCrossDir")    # (i) the stale mark lands on a file created at the old name meanwhile
         if name == "rename":
             k = fs.kind(st[2])
             if k == "file":
@@ -685,7 +698,7 @@ class Ghost:
         p = st[3] if name == "open" else st[2] if name == "spit" else None
         if p in self.unflushed and p not in self.recreated and fs_after.kind(p) == "file":
             self.recreated[p] = fs_after.lookup(p)[1]
-        if p is not None and self.under_rename(p) and p not in self.recr_ren and fs_after.kind(p) == "file" \
+        if p is not None and self.under_rename(p) and fs_after.kind(p) == "file" \
                 and not any(fs_after.lookup(p)[1] == r[0] for r in self.pren):
             self.recr_ren[p] = fs_after.lookup(p)[1]
 
